@@ -12,14 +12,14 @@ RULE = ('(order) all pairs of orders in {-2..2, >, >>, >>>, <, <<, *, **, ***} x
         '(match) molecules of 2-8 beads: numbering with gaps, repeats and non-monotone residue numbers, chains with random '
         'extra bonds (branches, rings, cross-links), optional node attributes; links of 1-4 atoms, 70% derived from a connected '
         'piece of the molecule and then perturbed (one order, one attribute, one bond or absent bond), 30% random; features: '
-        'integer / > < / * orders, Choice and NotDefinedOrNot attributes, non-edges, patterns, molecule meta; real match_link, '
+        'integer / > < / * orders, Choice and NotDefinedOrNot attributes, the modifications attribute (absent / list / value / Choice / NotDefinedOrNot against atoms with 0-2 modification names), non-edges, patterns, molecule meta; real match_link, '
         'compared as a set of placements; (apply) 1-4 links in order with interactions (one per type per link), versioned '
         'interactions, removals by atoms / parameters / atom attributes / meta, attribute replacement, node removal, '
         'geometry-derived parameters (distance, angle) recomputed independently from the matched atoms; real '
         'DoLinks.run_molecule, interactions compared as multisets per type. non-trivial = a match case with at least one '
         'placement and at least one rejected injective assignment whose atoms all match, or an apply case where something '
         'was added and something overridden or removed; distinct by input')
-ASSUMPTIONS = ['node attributes are plain values; the modifications attribute (list matching) is not generated',
+ASSUMPTIONS = ['node attributes are plain values',
                'within one link at most one interaction per type; a link\'s replacements never touch attributes its own templates test '
                '(networkx enumerates placements lazily while the molecule is being edited)',
                'the order in which networkx reports placements is not modelled: results are compared as sets / multisets']
@@ -86,7 +86,8 @@ def gen_mol(rng):
         at = {1: rng.choice([1, 1, 1, 2, 3]), 2: rng.choice([1, 1, 2, 3])}
         if rng.random() < 0.3:
             at[3] = rng.randint(1, 2)
-        nodes.append({'key': k, 'resid': resid, 'attrs': at, 'pos': [round(rng.uniform(-1, 1), 3) for _ in range(3)]})
+        mods = rng.choice([[], [], [], [], [1], [2], [1, 2], [3]])
+        nodes.append({'key': k, 'resid': resid, 'attrs': at, 'mods': mods, 'pos': [round(rng.uniform(-1, 1), 3) for _ in range(3)]})
     edges = []
     for k in range(1, n):
         if rng.random() < 0.9:
@@ -138,6 +139,17 @@ def gen_link(rng, mol, base=100):
                     t[key] = ['eq', v] if r < 0.6 else (['choice', sorted({v, rng.randint(1, 3)})] if r < 0.85 else ['not', rng.choice([x for x in (1, 2, 3) if x != v])])
                 elif key == 3 and rng.random() < 0.15:
                     t[key] = ['not', rng.randint(1, 2)]
+            if rng.random() < 0.25:
+                m = nodes[p].get('mods', [])
+                r = rng.random()
+                if r < 0.4:
+                    t[7] = ['list', list(m) if rng.random() < 0.7 else list(m)[::-1] + ([1] if rng.random() < 0.3 else [])]
+                elif r < 0.6:
+                    t[7] = ['eq', m[0] if m else rng.randint(1, 3)]
+                elif r < 0.8:
+                    t[7] = ['choice', sorted(set(m) | {rng.randint(1, 3)})]
+                else:
+                    t[7] = ['not', rng.randint(1, 3)]
             link['nodes'].append({'key': base + i, 'order': o, 'tmpl': t, 'replace': None})
         for i, p in enumerate(piece):
             for j, q in enumerate(piece):
@@ -328,7 +340,27 @@ def _pred(k, p):
 
 
 def _tmpl(t):
-    return {KEYNAME[int(k)]: _pred(int(k), p) for k, p in t.items()}
+    out = {}
+    for k, p in t.items():
+        if int(k) == 7:
+            import vermouth.molecule as vm
+            if p[0] == 'list':
+                out['modifications'] = ['m%d' % x for x in p[1]]
+            elif p[0] == 'eq':
+                out['modifications'] = 'm%d' % p[1]
+            elif p[0] == 'choice':
+                out['modifications'] = vm.Choice(['m%d' % x for x in p[1]])
+            else:
+                out['modifications'] = vm.NotDefinedOrNot('m%d' % p[1])
+        else:
+            out[KEYNAME[int(k)]] = _pred(int(k), p)
+    return out
+
+
+class _Mod:
+    """stand-in for a modification: only its name (a tuple of names) is looked at by _atoms_match"""
+    def __init__(self, name):
+        self.name = name
 
 
 def build_mol(m, ff):
@@ -336,7 +368,12 @@ def build_mol(m, ff):
     import numpy as np
     mol = vm.Molecule(force_field=ff)
     for nd in m['nodes']:
-        mol.add_node(nd['key'], resid=nd['resid'], position=np.array(nd['pos']),
+        extra = {}
+        mods = nd.get('mods', [])
+        if mods:
+            # two names may come from one modification with a two-name tuple or from two modifications
+            extra['modifications'] = [_Mod(tuple('m%d' % x for x in mods))] if len(mods) != 2 or nd['key'] % 2 else [_Mod(('m%d' % x,)) for x in mods]
+        mol.add_node(nd['key'], resid=nd['resid'], position=np.array(nd['pos']), **extra,
                      **{KEYNAME[int(k)]: val(int(k), v) for k, v in nd['attrs'].items()})
     for u, v in m['edges']:
         mol.add_edge(u, v)
@@ -445,7 +482,8 @@ def run_impl(inp):
     for k in mol.nodes:
         nd = mol.nodes[k]
         attrs = {str(rev[a]): unval(rev[a], v) for a, v in nd.items() if a in rev}
-        nodes.append({'key': k, 'resid': nd['resid'], 'attrs': attrs})
+        nodes.append({'key': k, 'resid': nd['resid'], 'attrs': attrs,
+                      'mods': [int(n[1:]) for mo in nd.get('modifications', []) for n in mo.name]})
     return {'inters': inters, 'nodes': nodes}
 
 
@@ -455,6 +493,8 @@ def attrs_lit(d):
 
 
 def pred_lit(p):
+    if p[0] == 'list':
+        return '(PList %s)' % listlit(p[1], zlit)
     if p[0] == 'eq':
         return '(PEq %s)' % zlit(p[1])
     if p[0] == 'choice':
@@ -471,7 +511,7 @@ def inter_lit(i):
 
 
 def node_lit(nd):
-    return '{| m_key := %s; m_resid := %s; m_attrs := %s |}' % (zlit(nd['key']), zlit(nd['resid']), attrs_lit(nd['attrs']))
+    return '{| m_key := %s; m_resid := %s; m_attrs := %s; m_mods := %s |}' % (zlit(nd['key']), zlit(nd['resid']), attrs_lit(nd['attrs']), listlit(nd.get('mods', []), zlit))
 
 
 def mol_lit(m):
